@@ -23,6 +23,9 @@ from ..simfs import SimFS
 
 RUNS = {"quick": 4000, "thorough": 200000}
 SELFCHECK = {"quick": 24, "thorough": 64}
+# fresh-interpreter lane of the self-check runs under python -O as well (the
+# operations of this engine do not depend on an assert of the pinned code)
+FRESH_OPTIMIZE = True
 CHUNK = 100
 LEVEL = "exploration"
 RULE = ("each run = one simulated fleet: drawn option grid (1-4 options x 1-5 "
